@@ -346,6 +346,11 @@ func (fd *Client) GetItem(ctx context.Context, input *dynamodb.GetItemInput, opt
 	fd.mu.Lock()
 	defer fd.mu.Unlock()
 
+	return fd.getItemLocked(input)
+}
+
+// getItemLocked is GetItem for a caller that holds the client lock
+func (fd *Client) getItemLocked(input *dynamodb.GetItemInput) (*dynamodb.GetItemOutput, error) {
 	if fd.forceFailureErr != nil {
 		return nil, fd.forceFailureErr
 	}
@@ -544,8 +549,12 @@ func (fd *Client) BatchWriteItem(ctx context.Context, input *dynamodb.BatchWrite
 
 // BatchGetItem mock response for dynamodb
 func (fd *Client) BatchGetItem(ctx context.Context, input *dynamodb.BatchGetItemInput, opts ...func(*dynamodb.Options)) (*dynamodb.BatchGetItemOutput, error) {
-	if err := fd.failureErr(); err != nil {
-		return nil, err
+	// the whole batch is one atomic read: the lock is held from the first key to the last
+	fd.mu.Lock()
+	defer fd.mu.Unlock()
+
+	if fd.forceFailureErr != nil {
+		return nil, fd.forceFailureErr
 	}
 
 	responses := make(map[string][]map[string]types.AttributeValue, len(input.RequestItems))
@@ -559,11 +568,7 @@ func (fd *Client) BatchGetItem(ctx context.Context, input *dynamodb.BatchGetItem
 		}
 
 		// neither is a table that does not exist: retrying its keys can never succeed
-		fd.mu.Lock()
-		_, err = fd.getTable(tableName)
-		fd.mu.Unlock()
-
-		if err != nil {
+		if _, err = fd.getTable(tableName); err != nil {
 			return nil, mapKnownError(err)
 		}
 	}
@@ -692,7 +697,7 @@ func executeBatchWriteRequest(ctx context.Context, fd *Client, table *string, re
 }
 
 func executeGetRequest(ctx context.Context, fd *Client, getInput *dynamodb.GetItemInput) (map[string]types.AttributeValue, error) {
-	response, err := fd.GetItem(ctx, getInput)
+	response, err := fd.getItemLocked(getInput)
 	if err != nil {
 		return nil, err
 	}
